@@ -490,6 +490,14 @@ class H2Connection:
 
         return s
 
+    def _abandon_new_stream(self, stream_id, highest_stream_id):
+        """
+        Forget a stream that was created for a call which then failed before
+        anything was sent on it: the stream ID has not been used.
+        """
+        del self.streams[stream_id]
+        self.highest_outbound_stream_id = highest_stream_id
+
     def initiate_connection(self):
         """
         Provides any data that needs to be sent at the start of the connection.
@@ -788,13 +796,20 @@ class H2Connection:
                 )
 
         self.state_machine.process_input(ConnectionInputs.SEND_HEADERS)
+        new_stream = stream_id not in self.streams
+        highest_stream_id = self.highest_outbound_stream_id
         stream = self._get_or_create_stream(
             stream_id, AllowedStreamIDs(self.config.client_side)
         )
-        frames = stream.send_headers(
-            headers, self.encoder, end_stream,
-            priority_present=priority_present
-        )
+        try:
+            frames = stream.send_headers(
+                headers, self.encoder, end_stream,
+                priority_present=priority_present
+            )
+        except Exception:
+            if new_stream:
+                self._abandon_new_stream(stream_id, highest_stream_id)
+            raise
 
         if priority_present:
             headers_frame = frames[0]
@@ -986,14 +1001,19 @@ class H2Connection:
         if (stream_id % 2) == 0:
             raise ProtocolError("Cannot recursively push streams.")
 
+        highest_stream_id = self.highest_outbound_stream_id
         new_stream = self._begin_new_stream(
             promised_stream_id, AllowedStreamIDs.EVEN
         )
         self.streams[promised_stream_id] = new_stream
 
-        frames = stream.push_stream_in_band(
-            promised_stream_id, request_headers, self.encoder
-        )
+        try:
+            frames = stream.push_stream_in_band(
+                promised_stream_id, request_headers, self.encoder
+            )
+        except Exception:
+            self._abandon_new_stream(promised_stream_id, highest_stream_id)
+            raise
         new_frames = new_stream.locally_pushed()
         self._prepare_for_sending(frames + new_frames)
 
